@@ -43,6 +43,9 @@ func showValue(v any) string {
 	case int:
 		return fmt.Sprintf("i%d", x)
 	case float64:
+		if math.IsNaN(x) {
+			return "fNaN"
+		}
 		return fmt.Sprintf("f%d", math.Float64bits(x))
 	case string:
 		return "s" + hx([]byte(x))
